@@ -50,6 +50,17 @@ def gen_spec(rng, small=False):
         seen.add(num)
         uniq.append(tr)
     tracers = uniq
+    # sometimes a block has no row of its own in tracerinfo.dat while its
+    # bare tracer number is the row of an offset-0 tracer (e.g. adjoint
+    # output): the reader then falls back to that name with scale 1
+    rows0 = {tr['id']: tr for tr in tracers if tr['cat'] == 0}
+    if not small and rng.random() < 0.25:
+        for tr in tracers:
+            if tr['cat'] > 0 and tr['id'] in rows0 and \
+                    offsets[tr['cat']] + tr['id'] not in rows0:
+                tr['norow'] = True
+                tr['name'] = rows0[tr['id']]['name']
+                break
     nt = int(rng.integers(1, 3 if small else 5))
     tau0 = float(rng.integers(100000, 300000))
     return {'fmt': 'bpch', 'cats': cats, 'offsets': offsets[:ncat],
@@ -84,6 +95,7 @@ def content(spec):
         c['vars'][k] = raw_field(spec, ti, (nt, tr['nl'], spec['nj'],
                                             spec['ni']))
         c['meta'][k] = {'scale': tr['scale'], 'unit': tr['unit'],
+                        'norow': bool(tr.get('norow')),
                         'category': spec['cats'][tr['cat']],
                         'tracerid': tr['id'], 'baseunit': tr['baseunit'],
                         'start': (spec['i0'], spec['j0'], tr['k0'])}
@@ -121,6 +133,8 @@ def encode(spec):
 def tracerinfo_text(spec):
     lines = ['# tracerinfo.dat written by pncmon (reference)']
     for tr in spec['tracers']:
+        if tr.get('norow'):
+            continue
         num = spec['offsets'][tr['cat']] + tr['id']
         lines.append('%-8s %-30s%10.3E%3d%9d%10.3E %s' % (
             tr['name'], tr['name'] + ' tracer', tr['molwt'], tr['carbon'],
